@@ -367,4 +367,82 @@ theorem defineGroup_keeps_pos {c c' : Chem} {res : List String} {name : String} 
               rw [alookup_ainsert_ne _ hkn]
               exact hk
 
+/-! ### what `define_group` stores -/
+
+theorem entsToPos_spec : ∀ (es : List Ent) (index : List Nat), entsToPos es = .ok index → es = index.map Ent.pos
+  | [], index, h => by simp [entsToPos] at h; subst h; rfl
+  | .pos i :: t, index, h => by
+    simp only [entsToPos, bind, Except.bind] at h
+    split at h
+    · cases h
+    · rename_i r hr
+      simp only [pure, Except.pure] at h
+      cases h
+      simp [entsToPos_spec t r hr]
+  | .grp _ :: _, _, h => by simp [entsToPos] at h
+
+theorem indices_length (c : Chem) : ∀ (ids : List String) (es : List Ent), c.indices ids = .ok es → es.length = ids.length
+  | [], es, h => by simp [Chem.indices] at h; subst h; rfl
+  | n :: t, es, h => by
+    simp only [Chem.indices, bind, Except.bind] at h
+    split at h
+    · cases h
+    · split at h
+      · cases h
+      · rename_i es' hes
+        simp only [pure, Except.pure] at h
+        cases h
+        simp [indices_length c t es' hes]
+
+theorem sumRat_map_mul_right (t : Rat) : ∀ (l : List Rat), sumRat (l.map (· * t)) = sumRat l * t
+  | [] => by simp [sumRat]
+  | a :: r => by simp only [List.map_cons, sumRat]; rw [sumRat_map_mul_right t r, Rat.add_mul]
+
+/-- a composition with a non-zero total is stored with total 1 -/
+theorem sumRat_normalise (l : List Rat) (h : sumRat l ≠ 0) : sumRat (normalise l) = 1 := by
+  unfold normalise
+  have : (l.map (· / sumRat l)) = l.map (· * (sumRat l)⁻¹) := by
+    apply List.map_congr_left; intro a _; exact Rat.div_def a (sumRat l)
+  rw [this, sumRat_map_mul_right, Rat.mul_inv_cancel _ h]
+
+theorem length_normalise (l : List Rat) : (normalise l).length = l.length := by simp [normalise]
+
+/-- **What `define_group` (molar composition) stores.**  The group's index lists the positions of the
+IDs in the order given; the stored composition is the given one divided by its total, element `j`
+belonging to ID `j` (same length, same order), and it sums to 1 whenever the total is not zero. -/
+theorem defineGroup_spec {c c' : Chem} {res : List String} {name : String} {ids : List String}
+    {comp : List Rat} (h : c.defineGroup res name ids (some comp) false = .ok c') :
+    ∃ index, c.indices ids = .ok (index.map Ent.pos) ∧
+      alookup name c'.index = some (.grp index) ∧ alookup name c'.comps = some (normalise comp) ∧
+      index.length = ids.length ∧ (normalise comp).length = index.length ∧
+      (sumRat comp ≠ 0 → sumRat (normalise comp) = 1) := by
+  unfold Chem.defineGroup at h
+  split at h
+  · cases h
+  · split at h
+    · cases h
+    · cases h
+    · simp only [Option.getD_some] at h
+      split at h
+      · cases h
+      · rename_i hlen
+        split at h
+        · cases h
+        · split at h
+          · cases h
+          · rename_i es hes
+            split at h
+            · cases h
+            · rename_i index hidx
+              cases h
+              have hes' := entsToPos_spec es index hidx
+              have hl := indices_length c ids es hes
+              subst hes'
+              simp only [List.length_map] at hl
+              refine ⟨index, hes, alookup_ainsert_self _ _ _, ?_, hl, ?_, sumRat_normalise comp⟩
+              · simp only [Bool.false_eq_true, if_false]
+                exact alookup_ainsert_self _ _ _
+              · rw [length_normalise, hl]
+                simpa using hlen
+
 end ThermoVerif.Chemicals
